@@ -90,6 +90,8 @@ pub struct Ctx<'a> {
     /// boolean conditions a just translated pattern needs in addition to the Coq pattern (error variants
     /// are matched by name: `RErr (E s [x])` + `str_eqb s "IOError"`)
     pat_guards: Vec<String>,
+    /// names of the top-level `let mut`s of the translated statements, in order (`#i` in `locals`)
+    mut_lets: Vec<String>,
 }
 
 pub struct Out {
@@ -114,7 +116,7 @@ fn translate_mode(spec: &Spec, f_sig: &Signature, body: &Block, sigs: &BTreeMap<
         ReturnType::Default => Ty::Unit,
         ReturnType::Type(_, t) => spec.ty_of(t),
     };
-    let mut c = Ctx { spec, sigs, monadic, env: vec![], names: BTreeMap::new(), ret: ret.clone(), wrap, assigns: 0, rename: vec![], state_keys: vec![], pat_guards: vec![] };
+    let mut c = Ctx { spec, sigs, monadic, env: vec![], names: BTreeMap::new(), ret: ret.clone(), wrap, assigns: 0, rename: vec![], state_keys: vec![], pat_guards: vec![], mut_lets: vec![] };
     let mut binders: Vec<String> = vec![];
     for tp in &spec.type_params {
         binders.push(format!("{{{} : Type}}", tp));
@@ -302,7 +304,24 @@ fn translate_mode(spec: &Spec, f_sig: &Signature, body: &Block, sigs: &BTreeMap<
             }
         }
     };
+    for st in &stmts {
+        if let Stmt::Local(l) = st {
+            let mut p = &l.pat;
+            if let Pat::Type(pt) = p {
+                p = &pt.pat;
+            }
+            if let Pat::Ident(pi) = p {
+                if pi.mutability.is_some() {
+                    c.mut_lets.push(pi.ident.to_string());
+                }
+            }
+        }
+    }
     let fin: &dyn Fn(&mut Ctx, Tm) -> R = &|c, tm| {
+        if c.spec.step.is_some() && c.spec.after_loop.is_some() {
+            // the statements after a loop end the function: its value
+            return c.finish(tm);
+        }
         if c.spec.step.is_some() {
             return c.step_value("KNext");
         }
@@ -525,7 +544,14 @@ impl<'a> Ctx<'a> {
         }
         if let Some(ls) = &self.spec.locals {
             for l in ls {
-                let actual = self.rename.iter().find(|(_, c)| c == l).map(|(a, _)| a.clone()).unwrap_or(l.to_string());
+                let actual = match l.strip_prefix('#').and_then(|i| i.parse::<usize>().ok()) {
+                    // `#i`: the i-th top-level `let mut` of the translated statements
+                    Some(i) => match self.mut_lets.get(i) {
+                        Some(n) => n.clone(),
+                        None => return Err(TErr::Unsupported(format!("no `let mut` number {} in the translated statements", i))),
+                    },
+                    None => self.rename.iter().find(|(_, c)| c == l).map(|(a, _)| a.clone()).unwrap_or(l.to_string()),
+                };
                 match self.lookup(&actual) {
                     Some(t) => parts.push(t.s),
                     None => return Err(TErr::Unsupported(format!("local `{}` not in scope at `{}`", l, ctor))),
